@@ -325,6 +325,8 @@ class Models:
         raise Unsupported("dict.%s" % name, node)
 
     def map_method(self, it, ref, o, name, args, kwargs, node):
+        if name == "keys" and not args:
+            return T(("mapkeys", ref))
         raise Unsupported("map.%s" % name, node)
 
     # ------------------------------------------------------------------ builtins
